@@ -34,7 +34,7 @@ type c15Case struct {
 }
 
 var c15Forms = []string{"condition-holding-dst", "cond-alias-holding-dst", "ptr-condition-holding-dst", "read-only-condition-holding-dst", "native", "alias", "ptr-alias", "ptr-native", "aliasS", "read-only", "read-only-alias", "read-only-aliasS", "read-only-ptr-alias", "read-only-ptr-native", "zero", "freed", "nil", "int", "string", "condition", "nil-ptr-alias", "nil-ptr-native", "zero-alias",
-	"nil-pp-native", "nil-pp-alias", "nil-ppp-native", "ptr-to-nil-ptr", "pp-native", "pp-alias"}
+	"nil-pp-native", "nil-pp-alias", "nil-ppp-native", "ptr-to-nil-ptr", "pp-native", "pp-alias", "p9-native", "p12-alias", "p9-int", "named-ptr-native"}
 
 // c15RunSelf: the destination is the source itself (the same handle, an alias of it, a pointer to it).
 // "dst holds its previous elements followed by every element of src" then reads old ++ old; the clause
@@ -299,6 +299,15 @@ func c15Run(c *Ctx, cs c15Case, count bool) {
 		a := StackAlias(dstNative)
 		pa := &a
 		dst, maybe = &pa, true
+	case "p9-native": // nine (twelve) pointer levels: no more usable and no less harmless than two
+		dst, maybe = deepPointer(dstNative, 9), true
+	case "p12-alias":
+		dst, maybe = deepPointer(StackAlias(dstNative), 12), true
+	case "p9-int": // ... above something that is no Stack at all
+		dst, usable = deepPointer(7, 9), false
+	case "named-ptr-native": // a declared pointer type is a pointer
+		a := dstNative
+		dst = StackRef(&a)
 	}
 	srcBefore, dstBefore := dumpKey(src), dumpKey(dstNative)
 	var got bool
